@@ -5013,6 +5013,10 @@ def concat(
     )
 
 
+def _no_key(key):
+    return key is None or (isinstance(key, (list, tuple)) and len(key) == 0)
+
+
 def merge(
     left,
     right,
@@ -5031,12 +5035,14 @@ def merge(
     for o in [on, left_on, right_on]:
         if isinstance(o, FrameBase):
             raise NotImplementedError()
-    if not on and not left_on and not right_on and not left_index and not right_index:
-        on = [c for c in left.columns if c in right.columns]
-        if not on:
-            left_index = right_index = True
+    # A key is a label (0 is one) or a list of labels
+    if _no_key(on) and _no_key(left_on) and _no_key(right_on):
+        if not left_index and not right_index:
+            on = [c for c in left.columns if c in right.columns]
+            if not on:
+                left_index = right_index = True
 
-    if on and not left_on and not right_on:
+    if not _no_key(on) and _no_key(left_on) and _no_key(right_on):
         left_on = right_on = on
 
     supported_how = ("left", "right", "outer", "inner", "leftsemi")
@@ -5061,21 +5067,21 @@ def merge(
 
     # Transform pandas objects into dask.dataframe objects
     if not is_dask_collection(left):
-        if right_index and left_on:  # change to join on index
+        if right_index and not _no_key(left_on):  # change to join on index
             left = left.set_index(left[left_on])
             left_on = None
             left_index = True
         left = from_pandas(left, npartitions=1)
 
     if not is_dask_collection(right):
-        if left_index and right_on:  # change to join on index
+        if left_index and not _no_key(right_on):  # change to join on index
             right = right.set_index(right[right_on])
             right_on = None
             right_index = True
         right = from_pandas(right, npartitions=1)
 
     assert is_dataframe_like(right._meta)
-    if left_on and right_on:
+    if not _no_key(left_on) and not _no_key(right_on):
         warn_dtype_mismatch(left, right, left_on, right_on)
 
     return new_collection(
